@@ -579,8 +579,36 @@ func constStringsOf(w *World, fn *ssa.Function) []string {
 
 func c05Tables(w *World, r *Report) {
 	ri := r.Rule("C05.4", 2, "the default allowed algorithms are asymmetric and a subset of the algorithms accepted by the parser")
-	def := w.Func("internal/rules/mechanisms/authenticators", "defaultAllowedAlgorithms")
-	sup := w.Func("internal/rules/mechanisms/authenticators", "supportedAlgorithms")
+	// the tables are found by their use: the parser's set is what is handed to jwt.ParseSigned, the
+	// defaults are what a constructor stores into the AllowedAlgorithms of the assertions
+	var def, sup *ssa.Function
+	var ctors []*ssa.Function
+	for _, fn := range w.Funcs {
+		if w.isMockFn(fn) || !strings.HasSuffix(fnPkgPath(fn), "/internal/rules/mechanisms/authenticators") {
+			continue
+		}
+		for _, c := range findCalls(fn, func(c *ssa.CallCommon) bool { return strings.HasSuffix(callName(c), "jwt.ParseSigned") }) {
+			if len(c.Common().Args) >= 2 {
+				if tc, _ := resultOfCall(c.Common().Args[1]); tc != nil {
+					if g := tc.Common().StaticCallee(); g != nil && w.inModule(g) && g.Signature.Params().Len() == 0 {
+						sup = g
+					}
+				}
+			}
+		}
+		eachInstr(fn, func(in ssa.Instruction) {
+			st, ok := in.(*ssa.Store)
+			if !ok || !pathEndsWith(st.Addr, "AllowedAlgorithms") {
+				return
+			}
+			if tc, _ := resultOfCall(st.Val); tc != nil {
+				if g := tc.Common().StaticCallee(); g != nil && w.inModule(g) && g.Signature.Params().Len() == 0 {
+					def = g
+					ctors = append(ctors, fn)
+				}
+			}
+		})
+	}
 	if def == nil || sup == nil {
 		r.Undecided(ri, "algorithm tables not found")
 		return
@@ -609,8 +637,11 @@ func c05Tables(w *World, r *Report) {
 	}
 	r.Ob(ri, "default-subset-of-parse-set", sup.Pos(), sub, fmt.Sprintf("defaults %v are not a subset of the parser's set %v (or the parser accepts 'none')", d, s))
 	// the defaults are installed when none are configured
-	ctor := w.Func("internal/rules/mechanisms/authenticators", "newJwtAuthenticator")
-	if ctor != nil {
+	sort.Slice(ctors, func(i, j int) bool { return ctors[i].String() < ctors[j].String() })
+	for _, ctor := range ctors {
+		if !strings.Contains(strings.ToLower(ctor.Name()), "jwt") {
+			continue // the obligation is keyed for the JWT authenticator's constructor
+		}
 		ok := false
 		for _, c := range findCalls(ctor, func(c *ssa.CallCommon) bool { return c.StaticCallee() == def }) {
 			if onlyVia(ctor, c.Block(), func(f Fact) bool {
@@ -734,8 +765,27 @@ func c05KeyValidation(w *World, r *Report) {
 			continue
 		}
 		vals := findCalls(fn, func(c *ssa.CallCommon) bool {
+			// the key validation: a module function that takes the JWK, returns only an error and
+			// reaches the certificate validation of internal/x/pkix
 			callee := c.StaticCallee()
-			return callee != nil && callee.Name() == "validateJWK"
+			if callee == nil || !w.inModule(callee) || callee.Blocks == nil || callee.Signature.Results().Len() != 1 || !isErrorType(callee.Signature.Results().At(0).Type()) {
+				return false
+			}
+			takesJWK := false
+			for i := 0; i < callee.Signature.Params().Len(); i++ {
+				if strings.HasSuffix(callee.Signature.Params().At(i).Type().String(), "jose/v4.JSONWebKey") {
+					takesJWK = true
+				}
+			}
+			if !takesJWK {
+				return false
+			}
+			for _, cc := range callsIn(callee) {
+				if g := cc.Common().StaticCallee(); g != nil && g.Name() == "ValidateCertificate" && strings.HasSuffix(fnPkgPath(g), "/internal/x/pkix") {
+					return true
+				}
+			}
+			return false
 		})
 		if len(vals) == 0 {
 			continue
